@@ -128,4 +128,22 @@ theorem fc3_quantity_code3 (h : Handler) (v sp : Bytes) (h8 : 8 ≤ v.length) (h
 example : handleFrame (fun _ _ => .genericErr) [0x12, 0x34, 0, 0, 0, 4, 7, 3, 0, 1] [0xAA, 0xBB] =
     some (excBytesTCP 0x1234 7 3 3) := by decide
 
+theorem resp_bytesTCP_tid (r : Resp) (tid : UInt16) : (r.bytesTCP tid).take 2 = [hi8 tid, lo8 tid] := by
+  cases r <;> simp [Resp.bytesTCP, mbap, put16]
+
+/-- whatever the server answers to a complete frame - response or exception, any handler - starts with the two
+transaction-id bytes of that frame and carries its unit id -/
+theorem reply_echoes_tid (h : Handler) (v sp : Bytes) (h8 : 8 ≤ v.length) (hm : MBAPrest v)
+    (hs : supportedFunctionCodes.contains (v.getD 7 0) = true) (out : Bytes)
+    (ho : handleFrame h v sp = some out) : out.take 2 = [v.getD 0 0, v.getD 1 0] := by
+  have hsh := server_reply h v sp h8 hm hs
+  rw [ho] at hsh
+  generalize hso : some out = so at hsh
+  cases hsh with
+  | refused => cases hso; exact exception_tid v _ _ _
+  | handled req r _ _ _ => cases hso; rw [resp_bytesTCP_tid, hi8_be16, lo8_be16]
+  | typed req c _ => cases hso; exact exception_tid v _ _ _
+  | generic req _ => cases hso; exact exception_tid v _ _ _
+  | panicked req _ => cases hso
+
 end Modbus.Properties.C16
